@@ -1656,7 +1656,7 @@ class LoopExpression(Expression):
     def _to_int(self, obj: object, *, token: TokenT) -> int:
         try:
             return to_int(obj)
-        except (ValueError, TypeError) as err:
+        except (ValueError, TypeError, OverflowError) as err:
             raise LiquidTypeError(
                 f"expected an integer, found {obj.__class__.__name__}",
                 token=token,
@@ -1684,10 +1684,14 @@ class LoopExpression(Expression):
             length = max(length - offset, 0)
         elif offset is not None:
             assert isinstance(offset, int), f"found {offset!r}"
+            # A negative offset is no offset, and there's nothing beyond the end
+            # of the sequence. `islice` accepts neither negative nor huge indices.
+            offset = min(max(offset, 0), length)
             length = max(length - offset, 0)
 
         if limit is not None:
-            length = min(length, limit)
+            # A negative limit means no iterations.
+            length = min(length, max(limit, 0))
 
         stop = offset + length if offset else length
         context.stopindex(key=offset_key, index=stop)
